@@ -123,7 +123,7 @@ func TestC01(t *testing.T) {
 	defer chainfx.GlobalObserver.Store(nil)
 
 	rng := r.Rand("cases")
-	nCases := r.N(70, 1500)
+	nCases := r.N(70, 450)
 	maxTxs := r.N(48, 256)
 	reps := r.N(2, 3)
 	cfgPool := []int{1, 2, 3, 4, 8, 16}
